@@ -299,3 +299,164 @@ pub(crate) fn l1_helping_help() {
     }
     vcover!("l1_helping_help_end");
 }
+
+// ------------------------------------------------------------------------------------------------
+// L-H under interference: while a writer runs `help` on a node, the node's owner (the reader) and
+// other helpers keep moving. Environment (before every access of `help` to who.control /
+// who.active_addr, at most HELP_ENV_BUDGET actions in total):
+//   FINISH        the reader confirms / gives up its transaction: control := IDLE
+//   PUBLISH_ADDR  the reader starts its next transaction: active_addr := my storage or another
+//   PUBLISH_GEN   ... and publishes the next generation: control := GEN(g+4)   (only from IDLE)
+//   OTHER_HELP    another writer installs its replacement: control := envelope'|REPLACEMENT_TAG
+// Ghost: `gen_addr` = the address the reader published for the generation currently in control.
+// Obligations: my replacement is installed only by a CAS that expected the generation I read, and
+// only if that generation's reader is loading MY storage; otherwise no reference is lost or leaked
+// (every replacement value that did not travel is released); bounded retries.
+struct HelpEnv {
+    on: bool,
+    who_control: usize,
+    who_active_addr: usize,
+    budget: u8,
+    gen_addr: usize,
+    next_gen: usize,
+    pending_addr: usize,
+    third_envelope: usize,
+    storage_addr: usize,
+    installs: usize,
+}
+static mut HENV: HelpEnv = HelpEnv { on: false, who_control: 0, who_active_addr: 0, budget: 0, gen_addr: 0, next_gen: 0, pending_addr: 0, third_envelope: 0, storage_addr: 0, installs: 0 };
+static mut HENV_WHO: Option<&'static Slots> = None;
+
+fn henv_before(ev: &crate::verif::Event) {
+    let e = unsafe { &mut HENV };
+    if !e.on {
+        return;
+    }
+    if ev.addr != e.who_control && ev.addr != e.who_active_addr {
+        return;
+    }
+    // a whole reader transaction boundary (finish, publish address, publish generation) fits
+    // between two steps of the helper
+    henv_action();
+    henv_action();
+    henv_action();
+}
+
+fn henv_action() {
+    let e = unsafe { &mut HENV };
+    if e.budget == 0 {
+        return;
+    }
+    let who = unsafe { HENV_WHO.unwrap() };
+    let c = who.control.raw().load(SeqCst);
+    match nd::below(5) {
+        1 => {
+            // FINISH
+            if c & TAG_MASK != 0 {
+                who.control.raw().store(IDLE, SeqCst);
+                e.budget -= 1;
+            }
+        }
+        2 => {
+            // PUBLISH_ADDR (the reader is between two transactions)
+            if c == IDLE {
+                let a = if nd::any_bool() { e.storage_addr } else { A2 };
+                who.active_addr.raw().store(a, SeqCst);
+                e.pending_addr = a;
+                e.budget -= 1;
+            }
+        }
+        3 => {
+            // PUBLISH_GEN
+            if c == IDLE {
+                e.next_gen = e.next_gen.wrapping_add(4);
+                who.control.raw().store(e.next_gen | GEN_TAG, SeqCst);
+                e.gen_addr = who.active_addr.raw().load(SeqCst);
+                e.budget -= 1;
+            }
+        }
+        4 => {
+            // OTHER_HELP
+            if c & TAG_MASK == GEN_TAG {
+                who.control.raw().store(e.third_envelope | REPLACEMENT_TAG, SeqCst);
+                e.budget -= 1;
+            }
+        }
+        _ => {}
+    }
+}
+
+fn henv_after(ev: &crate::verif::Event) {
+    model::record_after(ev);
+    let e = unsafe { &mut HENV };
+    if e.on && ev.addr == e.who_control && (ev.op == crate::verif::Op::Cas || ev.op == crate::verif::Op::CasWeak) && ev.ok {
+        e.installs += 1;
+        vassert!(ev.a & TAG_MASK == GEN_TAG, "help_replaces_only_a_published_generation");
+        vassert!(e.gen_addr == e.storage_addr, "help_hands_over_only_to_a_reader_loading_this_storage");
+    }
+}
+
+pub(crate) const HELP_ENV_BUDGET: u8 = 4;
+pub(crate) const K_HELP: usize = 40;
+
+// @harness name=rg_help props=C03,C12,C01,C09 tier=quick flavour=nostd timeout=1800 fn=helping::Slots::help
+#[cfg_attr(kani, kani::proof)]
+#[cfg_attr(kani, kani::unwind(12))]
+pub(crate) fn rg_help() {
+    let mut me = Slots::default();
+    me.init();
+    let mut who = Slots::default();
+    who.init();
+    let mut third = Slots::default();
+    third.init();
+    let storage_addr = A1;
+    // the reader is parked anywhere: idle, or in a transaction on my storage or on another one
+    let g0 = any_generation();
+    let same = nd::any_bool();
+    poke_active_addr(&who, if same { storage_addr } else { A2 });
+    let started = nd::any_bool();
+    poke_control(&who, if started { g0 | GEN_TAG } else { IDLE });
+    let obj = nd::below(model::POOL as u8) as usize;
+    model::create(obj, 1);
+    unsafe {
+        REPL_CALLS = 0;
+        REPL_OBJ = obj;
+        HENV = HelpEnv {
+            on: true,
+            who_control: &who.control as *const _ as usize,
+            who_active_addr: &who.active_addr as *const _ as usize,
+            budget: HELP_ENV_BUDGET,
+            gen_addr: if same { storage_addr } else { A2 },
+            next_gen: g0,
+            pending_addr: 0,
+            third_envelope: own_handover_addr(&third),
+            storage_addr,
+            installs: 0,
+        };
+        HENV_WHO = Some(&*(&who as *const Slots));
+    }
+    let pre_me = view(&me);
+    model::log_reset();
+    unsafe { crate::verif::set_hooks(Some(henv_before), Some(henv_after)) };
+
+    me.help::<_, TP>(&who, storage_addr, &replacement);
+
+    unsafe {
+        crate::verif::set_hooks(None, None);
+        HENV.on = false;
+        HENV_WHO = None;
+    }
+    let installs = unsafe { HENV.installs };
+    let calls = unsafe { REPL_CALLS };
+    vassert!(installs <= 1, "help_installs_at_most_one_replacement");
+    // every value the closure produced either travelled with the one installed envelope or was released
+    vassert!(model::cnt(obj) == 1 + installs, "help_releases_every_replacement_that_did_not_travel");
+    vassert!(calls <= 1 + HELP_ENV_BUDGET as usize, "help_retries_only_when_the_control_word_changed");
+    vassert!(model::steps() <= K_HELP, "help_finishes_in_bounded_own_steps");
+    let post_me = view(&me);
+    vassert!(post_me.control == IDLE && post_me.slot == pre_me.slot, "help_frame_own_control_and_slot");
+    if installs == 0 {
+        vassert!(post_me.space_offer == pre_me.space_offer, "help_keeps_its_envelope_when_nothing_was_installed");
+    }
+    vcover!("rg_help_end");
+}
